@@ -153,19 +153,38 @@ func ForeignUnit(t *sim.Tape, rnd *sim.Rand) *UNode {
 		// sample group description (version 1) with a seeded grouping type, default_length and small entries:
 		// exercises the per-type sample-group-entry decoders (roll, rap, alst, seig, unknown)
 		gt := []string{"roll", "rap ", "alst", "seig", "zzzz"}[t.Draw(5)]
-		dl := t.Draw(24)
+		// the natural entry size of the grouping type (alst: roll_count 0..2 plus 0..1 optional pairs), or a seeded
+		// one (which the typed entry decoders must reject); default_length 0 = every entry carries its own length
+		rc := t.Draw(3)
+		nat := map[string]int{"roll": 2, "rap ": 1, "alst": 4 + 4*rc + 4*t.Draw(2), "seig": 20, "zzzz": 1 + t.Draw(23)}[gt]
+		if t.Chance(200) {
+			nat = t.Draw(24)
+		}
+		dl := nat
+		if t.Chance(350) {
+			dl = 0
+		}
 		n := t.Draw(3)
-		p := cat([]byte{1, 0, 0, 0}, []byte(gt), be32(uint32(dl)), be32(uint32(n)))
+		// version 1, or version 2 in the layout the library reads and writes (default_length, then
+		// default_group_description_index, then the entries with their lengths)
+		p := cat([]byte{1, 0, 0, 0}, []byte(gt), be32(uint32(dl)))
+		if t.Chance(300) {
+			p[0] = 2
+			p = append(p, be32(uint32(t.Draw(3)))...)
+		}
+		p = append(p, be32(uint32(n))...)
 		for i := 0; i < n; i++ {
-			el := dl
+			el := nat
 			if dl == 0 {
-				el = t.Draw(24)
 				p = append(p, be32(uint32(el))...)
 			}
 			e := make([]byte, el)
 			rnd.Fill(e)
 			if gt == "alst" && el >= 2 {
-				e[0], e[1] = 0, byte(t.Draw(4)) // roll_count 0..3
+				e[0], e[1] = 0, byte(rc)
+			}
+			if gt == "seig" && el >= 4 {
+				e[2], e[3] = byte(t.Draw(2)), 8*byte(1+t.Draw(2)) // protected or not, per-sample IV size 8/16 (no constant IV)
 			}
 			p = append(p, e...)
 		}
